@@ -23,6 +23,9 @@
 //!  params  {"def","series":{key:[alternatives: [..]]},"real":{key:[alternatives]},"flags":{key:bool},"rtol":r}
 //!          keys the operator does not expose are tallied as unexposed, not judged
 //!  op      {"def","ok":bool}
+//!  projdef {"def","points":[[lon,lat,0,0],..],"rows":["text|n|d|dlon|sax|say|sbx|sby|same|rel",..],"lin":{..},"ang":{..}}
+//!          one definition A of spec/ProjParams.tla with its partners B: A(lon,lat) = sa + n/d*(B(lon - dlon deg, lat) - sb),
+//!          expanded into one forward and one inverse `rel` case per row ("same": bit for bit, no transformation)
 use geodesy::authoring::*;
 use gvh::util::*;
 use serde_json::{json, Value};
@@ -217,6 +220,8 @@ struct Runner {
     fails: Vec<Value>,
     unexposed: BTreeMap<String, usize>,
     exposed: usize,
+    per_class: BTreeMap<String, usize>,
+    mismatching: usize,
 }
 
 enum Applied {
@@ -227,7 +232,7 @@ enum Applied {
 
 impl Runner {
     fn new() -> Runner {
-        Runner { ctx: Minimal::default(), handles: BTreeMap::new(), evals: 0, cases: 0, fails: vec![], unexposed: BTreeMap::new(), exposed: 0 }
+        Runner { ctx: Minimal::default(), handles: BTreeMap::new(), evals: 0, cases: 0, fails: vec![], unexposed: BTreeMap::new(), exposed: 0, per_class: BTreeMap::new(), mismatching: 0 }
     }
 
     fn renew(&mut self) {
@@ -270,10 +275,15 @@ impl Runner {
     }
 
     fn fail(&mut self, case: &Value, what: &str, detail: Value) {
-        if self.fails.len() < 5000 {
+        // at most 1500 recorded per class of case (tag, operators involved), so that one flood does not hide another class
+        let first = |v: &Value| v.as_str().unwrap_or("").split_whitespace().next().unwrap_or("").to_string();
+        let key = format!("{}|{}|{}|{}", case["tag"].as_str().unwrap_or(""), what,
+            first(if case["a"].is_object() { &case["a"]["def"] } else { &case["def"] }), first(&case["b"]["def"]));
+        let n = self.per_class.entry(key).or_insert(0);
+        *n += 1;
+        self.mismatching += 1;
+        if *n <= 1500 {
             self.fails.push(json!({"id": case["id"], "tag": case["tag"], "what": what, "detail": detail, "case": case}));
-        } else {
-            self.fails.push(json!({"what":"more"}));
         }
     }
 
@@ -386,6 +396,63 @@ impl Runner {
         }
     }
 
+    fn projdef(&mut self, c: &Value) {
+        let a = c["def"].as_str().unwrap_or("").to_string();
+        let empty = vec![];
+        for (ri, row) in c["rows"].as_array().unwrap_or(&empty).iter().enumerate() {
+            let parts: Vec<&str> = row.as_str().unwrap_or("").split('|').collect();
+            if parts.len() != 9 {
+                self.fail(c, "bad_row", json!(row));
+                continue;
+            }
+            let num = |i: usize| parts[i].parse::<f64>().unwrap_or(f64::NAN);
+            let b = parts[0];
+            let rho = num(1) / num(2);
+            let dl = num(3).to_radians();
+            let (sax, say, sbx, sby) = (num(4), num(5), num(6), num(7));
+            let id = json!([c["id"], ri]);
+            let (fwd, inv) = if parts[8] == "same" {
+                let cmp = json!({"modes":["bits","bits","bits","bits"]});
+                (json!({"id":id,"k":"rel","tag":"identical-fwd","a":{"def":a,"dir":"F"},"b":{"def":b,"dir":"F"},"data":c["points"],"cmp":cmp}),
+                 json!({"id":id,"k":"rel","tag":"identical-inv","seed":{"def":a,"dir":"F"},"a":{"def":a,"dir":"I"},"b":{"def":b,"dir":"I"},
+                        "data":c["points"],"cmp":cmp}))
+            } else {
+                let mut lin = c["lin"].clone();
+                lin["modes"] = json!(["lin","lin","skip","skip"]);
+                lin["mag"] = json!(sax.abs().max(say.abs()).max(sbx.abs()).max(sby.abs()));
+                if num(3) != 0.0 {
+                    // lon - lon_0 is rounded at the magnitude of the longitudes: a few ulp(pi) radians on the ground
+                    let extra = c["ground"].as_f64().unwrap_or(0.0) * c["lin"]["lon_ulps"].as_f64().unwrap_or(0.0) * ulp(std::f64::consts::PI);
+                    lin["tol"] = json!(lin["tol"].as_f64().unwrap_or(0.0) + extra);
+                }
+                let mut ang = c["ang"].clone();
+                ang["modes"] = json!(["ang","ang","skip","skip"]);
+                {
+                    // removing a false origin rounds at its magnitude; seen from the sphere that is ulp(shift) / (k_0 * a) radians
+                    let shift = sax.abs().max(say.abs()).max(sbx.abs()).max(sby.abs());
+                    let g = c["ground"].as_f64().unwrap_or(0.0);
+                    let gmin = g.min(g / rho);
+                    if shift > 0.0 && gmin > 0.0 {
+                        let extra = ang["ulps"].as_f64().unwrap_or(0.0) * ulp(shift) / gmin;
+                        ang["atol"] = json!(ang["atol"].as_f64().unwrap_or(0.0) + extra);
+                    }
+                }
+                (json!({"id":id,"k":"rel","tag":"affine-fwd","a":{"def":a,"dir":"F"},"b":{"def":b,"dir":"F"},"data":c["points"],
+                        "pre_b":{"sub":[dl,0.0,0.0,0.0]},
+                        "post_b":{"sub":[sbx,sby,0.0,0.0],"mul":[rho,rho,1.0,1.0],"add":[sax,say,0.0,0.0]},"cmp":lin,
+                        "relation":{"rho":[parts[1],parts[2]],"dlon_deg":parts[3],"sa":[sax,say],"sb":[sbx,sby]}}),
+                 json!({"id":id,"k":"rel","tag":"affine-inv","seed":{"def":a,"dir":"F"},"a":{"def":a,"dir":"I"},"b":{"def":b,"dir":"I"},
+                        "data":c["points"],
+                        "pre_b":{"sub":[sax,say,0.0,0.0],"div":[rho,rho,1.0,1.0],"add":[sbx,sby,0.0,0.0]},
+                        "post_b":{"add":[dl,0.0,0.0,0.0]},"cmp":ang,
+                        "relation":{"rho":[parts[1],parts[2]],"dlon_deg":parts[3],"sa":[sax,say],"sb":[sbx,sby]}}))
+            };
+            self.cases += 2;
+            self.rel(&fwd);
+            self.rel(&inv);
+        }
+    }
+
     fn opcase(&mut self, c: &Value) {
         let def = c["def"].as_str().unwrap_or("");
         let r = self.op(def);
@@ -415,6 +482,10 @@ fn replay(input: &str, output: &str) -> i32 {
             "approx" => r.approx(&c),
             "params" => r.params(&c),
             "op" => r.opcase(&c),
+            "projdef" => {
+                r.cases -= 1;
+                r.projdef(&c)
+            }
             other => {
                 eprintln!("unknown case kind {other:?}");
                 return 2;
@@ -428,9 +499,9 @@ fn replay(input: &str, output: &str) -> i32 {
     for fl in &r.fails {
         writeln!(w, "{}", fl).unwrap();
     }
-    writeln!(w, "{}", json!({"summary":true,"cases":r.cases,"evaluations":r.evals,"mismatching":r.fails.len(),
-        "unexposed":r.unexposed,"params_compared":r.exposed})).unwrap();
-    println!("rel: {} cases, {} evaluations, {} mismatches", r.cases, r.evals, r.fails.len());
+    writeln!(w, "{}", json!({"summary":true,"cases":r.cases,"evaluations":r.evals,"mismatching":r.mismatching,"recorded":r.fails.len(),
+        "mismatches_by_class":r.per_class,"unexposed":r.unexposed,"params_compared":r.exposed})).unwrap();
+    println!("rel: {} cases, {} evaluations, {} mismatches", r.cases, r.evals, r.mismatching);
     if r.fails.is_empty() { 0 } else { 1 }
 }
 
@@ -439,8 +510,13 @@ fn main() {
     let a: Vec<&str> = args.iter().map(|s| s.as_str()).collect();
     let code = match (a.get(1).copied(), a.len()) {
         (Some("replay"), 4) => replay(a[2], a[3]),
+        (Some("ellipsoids"), _) => {
+            // the code's table of built-in ellipsoid names (verification hook)
+            println!("{}", json!(geodesy::verif::ellipsoid_names()));
+            0
+        }
         _ => {
-            eprintln!("usage: gvh_rel replay <in.ndjson> <out.ndjson>");
+            eprintln!("usage: gvh_rel replay <in.ndjson> <out.ndjson> | gvh_rel ellipsoids");
             2
         }
     };
